@@ -127,6 +127,8 @@ var Mutants = []Mutant{
 	{ID: "stack-iterrange-value-without-guard", Props: []string{"C17"}, Rule: "R-STACKEFFECT", File: "pkg/bytecode/vm.go", Find: "if val != nil && hasLoopVar != 0 {", Replace: "if hasLoopVar != 0 {", Expect: "OpIterRange", Describe: "OpIterRange pushes the loop value also when the range is exhausted"},
 	{ID: "stack-setindex-keeps-value", Props: []string{"C17", "C16"}, Rule: "R-STACKEFFECT", File: "pkg/bytecode/compiler.go", Find: "\t\tif err := c.Compile(target.Index); err != nil {\n\t\t\treturn err\n\t\t}\n\t\treturn c.emit(OpSetIndex)", Replace: "\t\tif err := c.Compile(target.Index); err != nil {\n\t\t\treturn err\n\t\t}\n\t\tif err := c.Compile(target.Index); err != nil {\n\t\t\treturn err\n\t\t}\n\t\treturn c.emit(OpSetIndex)", Expect: "Compile#case:AssignmentStmt", Describe: "an index assignment translates its index twice and leaves a value behind"},
 	{ID: "stack-while-break-target", Props: []string{"C17"}, Rule: "R-STACKEFFECT", File: "pkg/bytecode/compiler.go", Find: "\t// Prepare end position of while block, jump to end if condition is false\n\tjumpOnFalsePos, err := c.emitPos(OpJumpOnFalse, JumpPlaceholder)", Replace: "\tif err := c.emit(OpTrue); err != nil {\n\t\treturn err\n\t}\n\tif err := c.emit(OpDrop, 1); err != nil {\n\t\treturn err\n\t}\n\tif err := c.Compile(stmt.Condition); err != nil {\n\t\treturn err\n\t}\n\tjumpOnFalsePos, err := c.emitPos(OpJumpOnFalse, JumpPlaceholder)", Expect: "jump-height", Describe: "the while loop evaluates its condition twice and keeps the first result: the back jump arrives one value higher each iteration"},
+	{ID: "scope-update-stops-at-first-scope", Props: []string{"C10", "C09"}, Rule: "R-SCOPECHAIN", File: "pkg/evaluator/scope.go", Find: "\tif s.outer == nil {\n\t\treturn false\n\t}\n\treturn s.outer.update(name, val)", Replace: "\tif s.outer == nil {\n\t\treturn false\n\t}\n\tif s.outer.outer == nil {\n\t\ts.outer.values[name] = val\n\t\treturn true\n\t}\n\treturn s.outer.update(name, val)", Expect: "(*scope).update#", Describe: "an assignment that reaches the global scope creates the variable there instead of failing"},
+	{ID: "assignment-binds-locally", Props: []string{"C10", "C09"}, Rule: "R-SCOPECHAIN", File: "pkg/evaluator/evaluator.go", Find: "\t\tif !e.scope.update(n.Name, val) {\n\t\t\treturn newErr(n, fmt.Errorf(\"%w: %s\", ErrVarNotSet, n.Name))\n\t\t}\n\t\treturn nil", Replace: "\t\tif _, ok := e.scope.get(n.Name); !ok {\n\t\t\treturn newErr(n, fmt.Errorf(\"%w: %s\", ErrVarNotSet, n.Name))\n\t\t}\n\t\te.scope.set(n.Name, val)\n\t\treturn nil", Expect: "evalAssignment#binds-through:update", Describe: "an assignment inside a block creates a new variable in the block"},
 	// C08
 	{ID: "printf-composite-as-pointer", Props: []string{"C08"}, Rule: "R-ADDRPRINT", File: "pkg/evaluator/value.go", Find: "\t\treturn unwrapBasicvalue(v.V)\n\tdefault:\n\t\treturn v.String()\n\t}\n", Replace: "\t\treturn unwrapBasicvalue(v.V)\n\t}\n\treturn val\n", Expect: "sprintf#fmt-dynamic-args", Describe: "printf \"%d\" [1 2] prints a heap address"},
 	{ID: "mapstring-go-order", Props: []string{"C08", "C12"}, Rule: "R-MAPRANGE", File: "pkg/evaluator/value.go", Find: "func (m *mapVal) String() string {\n\tpairs := make([]string, 0, len(m.Pairs))\n\tfor _, key := range *m.Order {\n\t\tpairs = append(pairs, key+\":\"+m.Pairs[key].String())", Replace: "func (m *mapVal) String() string {\n\tpairs := make([]string, 0, len(m.Pairs))\n\tfor key, v := range m.Pairs {\n\t\tpairs = append(pairs, key+\":\"+v.String())", Expect: "(*mapVal).String#maprange", Describe: "maps print in Go map order"},
